@@ -17,20 +17,25 @@ package main
 //@ pure func noControlBytes(s string) bool = (forallIdx j int :: 0 <= j && j < len(s) ==> s[j] >= 0x20 && s[j] != 0x7f)
 //@ pure func safeDest(s string) bool = strPrefixOf("/", s) && !strPrefixOf("//", s) && !strPrefixOf("/\\", s) && noControlBytes(s)
 
+// what net/http.Redirect emits for a path-absolute target is path.Clean of it (dot segments removed, the
+// query kept): the emitted Location is a safeDest exactly when the target is one and no path segment
+// starts with a backslash ("/x/../\\host" would be cleaned to "/\\host").
+//@ pure func emitSafe(s string) bool = safeDest(s) && !strContains(s, "/\\")
+
 //@ func isSafeLoginDestination
 //@   intmode math
-//@   ensures ret0 ==> safeDest(dest)                                           #C17.safe-only @C17
-//@   ensures safeDest(dest) ==> ret0                                           #C17.safe-all @C17
+//@   ensures ret0 ==> emitSafe(dest)                                           #C17.safe-only @C17
+//@   ensures safeDest(dest) && !strContains(dest, "\\") ==> ret0                #C17.safe-all @C17
 //@   loop 1 (i int) invariant 0 <= i && (forallIdx j int :: 0 <= j && j < i ==> dest[j] >= 0x20 && dest[j] != 0x7f) #C17.scan @C17
 //@   modifies nothing
 
 //@ func getLoginDestination
-//@   ensures safeDest(ret0)                                                    #C17.safe @C17
+//@   ensures emitSafe(ret0)                                                    #C17.safe @C17
 //@   ensures ret0 == profilePath || ret0 == formGet(old(r.Form), "login_destination") || ret0 == formGet(r.Form, "login_destination")  #C17.echo @C17
 //@   cover ret0 != profilePath #C17.cover-echo @C17
 
 // every pending federated-login request remembers a destination that passed getLoginDestination
-//@ valinv pendingAuth2Request (v pendingAuth2Request) :: safeDest(v.loginDestination) #C17.pending @C17
+//@ valinv pendingAuth2Request (v pendingAuth2Request) :: emitSafe(v.loginDestination) #C17.pending @C17
 
 // Redirect sites whose target is, by design, not a client-supplied destination: each carries its own clause.
 //@ func (*RuntimeState).logoutHandler
